@@ -44,6 +44,9 @@ pub struct Scenario {
     /// computations take exponential time).
     #[serde(default, skip_serializing_if = "std::ops::Not::not")]
     pub watchdog: bool,
+    /// The functions added up front go through `add_fns` (arrays of up to 6) instead of single `add_fn` calls.
+    #[serde(default, skip_serializing_if = "std::ops::Not::not")]
+    pub add_fns: bool,
 }
 
 #[derive(Serialize, Deserialize, Clone, Debug, PartialEq)]
